@@ -126,3 +126,11 @@ def passthrough_unit(kind, uid=None, prop="C05"):
 
 for _k in ("RW", "MH", "IWLS"):
     passthrough_unit(_k)
+
+
+# "on acceptance [the returned state] is the state updated with the proposal": with a Liesel model that state is LieselInterface.update_state(
+# proposal, state), which must be a function of its two arguments only - also when the same state object was used for another proposal just
+# before (same harness as C03.LieselInterface.hier)
+from contracts.c03 import liesel_unit  # noqa: E402
+
+liesel_unit("hier", uid="C05.proposed_state_depends_on_proposal_and_state_only", prop="C05")
